@@ -394,6 +394,8 @@ func (s *server) script(sess atpcs.Session, w *faultWriter) {
 		case "expectmark":
 			n := o.N
 			s.waitFor(func() bool { return s.mark >= n })
+		case "expectdonelong":
+			s.waitUntil(func() bool { return s.gotDone }, time.Now().Add(9*time.Second))
 		case "expectmarklong":
 			// a silent peer that keeps its output open (longer than Close's own timeout)
 			n := o.N
@@ -623,6 +625,7 @@ func runJob(job atpcs.Job) (res atpcs.JobResult) {
 			srv.mu.Lock()
 			st := fmt.Sprintf("server consumed %d client messages, read side ended=%v", srv.nMsgs, srv.readEnd)
 			srv.mu.Unlock()
+			st += fmt.Sprintf(", server has written %d messages, client has decoded %d", rec.count("srvwrite"), rec.count("dec"))
 			scriptDone := false
 			select {
 			case <-srvDone:
@@ -692,6 +695,18 @@ func runJob(job atpcs.Job) (res atpcs.JobResult) {
 			if x.from != nil {
 				fromCh = x.from
 			}
+			stepID := "s"
+			switch o.Sid {
+			case "":
+			case "-":
+				stepID = ""
+			default:
+				stepID = o.Sid
+			}
+			var input any = map[string]any{"name": "n"}
+			if o.Bad {
+				input = map[string]any{"nosuchfield": 1}
+			}
 			started := make(chan struct{})
 			go func() {
 				defer close(x.done)
@@ -704,7 +719,7 @@ func runJob(job atpcs.Job) (res atpcs.JobResult) {
 				x.g = goid()
 				rec.add(atpcs.Ev{K: "call", Fn: "Execute", Run: x.run, To: x.to != nil, From: x.from != nil})
 				close(started)
-				x.res = cli.Execute(schema.Input{RunID: x.run, ID: "s", InputData: map[string]any{"name": "n"}}, toCh, fromCh)
+				x.res = cli.Execute(schema.Input{RunID: x.run, ID: stepID, InputData: input}, toCh, fromCh)
 				e := atpcs.Ev{K: "ret", Fn: "Execute", Run: x.run}
 				if x.res.Error != nil {
 					e.Err, e.ErrS = true, x.res.Error.Error()
@@ -932,7 +947,8 @@ func strictRun(s atpcs.Session, run string) bool {
 	}
 	d := 0
 	for _, o := range s.Srv {
-		if o.Op == "err" && (o.SF || o.VF) {
+		// a fatal error for everybody, or a step-fatal error for this run, excuses a failure
+		if o.Op == "err" && (o.VF || (o.SF && (o.R == "" || o.R == run))) {
 			return false
 		}
 		if (o.Op == "done" && o.R == run) || o.Op == "done1" {
